@@ -68,7 +68,7 @@ CLAIMED = {
               "one theorem per static rule (50: unique type names, unique keys/attributes incl. inherited, defined before use, extends concrete / "
               "implements abstract, wildcard rules, multisection names, no default on required, default keying and collisions, required values, "
               "nesting table, stray text, well-formed names) and C10_elab_schemaOK (every accepted document yields a schema object satisfying the "
-              "invariant the configuration-loading theorems assume: nothing is left for load time). Correspondence: every generated document and "
+              "invariant the configuration-loading theorems assume: nothing is left for load time), and the EXACT characterisation C10_accepted_iff_rules / _iff_rules_imports: a document (standalone, or importing components to any depth) is accepted if and only if it satisfies the declarative judgement DocRules (Spec/SchemaRules.lean: one named rule per clause of the property). Correspondence: every generated document and "
               "every rule-violating edit (~3 000 per quick run): real loadSchemaFile vs the model (accept/reject, exception class, equal schema object).",
               "trusted: Lean kernel; extract.py (nesting table, tag tuples); XML text -> element tree is expat's job (not modelled); the datatype registry's view of dotted names and package importability are probed on the interpreter and given to the model as tables.",
               "Lean 4 proof (per-rule theorems + schema invariant on the schema-loader model) + differential correspondence", "§0.2, §7 C10"),
@@ -122,12 +122,12 @@ CLAIMED = {
               "loader object reused and the corrected files re-loaded after each failure; random resource graphs with single faults followed by the corrected files on the same loader: outcome, events and loader state vs the graph model; failing components; loads ended by KeyboardInterrupt/SystemExit.",
               "trusted: Lean kernel; the hand-written models ZCV/Model/Resources.lean and Resources2.lean tied by trace correspondence; in-process instrumentation of urlopen/Resource.",
               "Lean 4 proof (well-bracketed traces for all graphs/faults) + fault enumeration with trace correspondence", "§0.2, §7 C19"),
-    "C20": _c("PROVED (60 theorems): level table/range/case-insensitivity, the registry invariants for ALL operation sequences (reopen/close act on exactly the "
+    "C20": _c("PROVED (75 theorems): level table/range/case-insensitivity, the registry invariants for ALL operation sequences (reopen/close act on exactly the "
               "live handlers), the complete handler decision table, factory idempotence and logger set-up on a model of factory.py/logger.py, and for the "
               "classic style: accepted iff every item is a known field with a conversion valid for its type, accepted => the formatter builds and an ordinary "
-              "record formats without raising (model of CPython's str % mapping incl. the 4300-digit int limit; compared with the real loader incl. exception class); the same for the template and safe-template styles (model of string.Template and logging's validation). Exploration of the real component: level spellings, logfile option "
+              "record formats without raising (model of CPython's str % mapping incl. the 4300-digit int limit; compared with the real loader incl. exception class); the same for the template and safe-template styles (model of string.Template and logging's validation) and, for plain fields, the format style (model of string.Formatter / str.format field access, conversions and format specs; beyond plain fields the statement is false on the real code: three listed findings with closed counterexamples). Exploration of the real component: level spellings, logfile option "
               "matrix vs model, produced loggers, factory idempotence, format strings of four styles, registry operation sequences vs model.",
-              "trusted: Lean kernel; extract.py; models ZCV/Model/Logger.lean tied by correspondence; rendering by logging/str.format, streams, files, weakref timing are outside the model.",
+              "trusted: Lean kernel; extract.py; models ZCV/Model/Logger.lean tied by correspondence; rendering by logging, streams, files, weakref timing are outside the model.",
               "Lean 4 proof (decision logic) + exploration of the real component with model correspondence", "§0.2, §7 C20"),
 }
 
